@@ -279,7 +279,9 @@ def lean_key(site: str, key: Tuple[str, ...]) -> Tuple[str, ...]:
         return key[:2]
     if site in ("ident", "dotIdent"):
         return key[1:3]
-    if site in ("dotNameContainer", "dotMessage", "dotMap", "objectNew", "objectNew0", "objectFields", "literal",
+    if site == "objectNew":
+        return key[:2] + (key[2].split(":")[0],)
+    if site in ("dotNameContainer", "dotMessage", "dotMap", "objectNew0", "objectFields", "literal",
                 "macroIter", "macroIterBare", "macroMin", "funcResolve", "methodResolve"):
         return key
     return key[:2]
@@ -291,7 +293,7 @@ def gen_measured() -> str:
         raise TranslationError("; ".join(d["errors"]))
     ids = d["ids"]
     o = [HEADER.format(src="the live code: every primitive of measure_c04.build_sites applied to the value pool"),
-         "import Cel.Model.Total\nnamespace Cel.Gen.Measured\nopen Cel.Total\n"]
+         "import Cel.Model.Total\nnamespace Cel.Gen.Measured\nopen Cel.Total\nset_option maxRecDepth 20000\n"]
     o.append("/-- (site, label :: operand kinds, exception classes raised) — only keys where something was raised.")
     o.append("    Keys are projected (see gen_c04.lean_key); class ids as in Cel.Gen.Handlers.classNames. -/")
     o.append("def table : List (Rule × List String × List Nat) := [")
